@@ -492,7 +492,7 @@ func (v *Verifier) verifyFunc(fn *ssa.Function, fc *FuncContract, em *Emitter, g
 	fx.Run()
 	if fc != nil {
 		for _, cs := range fc.Calls {
-			if !fx.usedCallSites[cs] {
+			if !fx.usedCallSites[cs] && cs.Ordinal != -1 {
 				return fx, toolLimit("contract of %s: call site %s#%d not found", fx.relName(), cs.Callee, cs.Ordinal)
 			}
 		}
